@@ -115,7 +115,7 @@ func (c18) Gen(r *core.Rand, tier string) interface{} {
 		if s.Packets > 0 {
 			s.Sink.FailAt = r.Pick(0, 0, r.Intn(s.Packets), s.Packets-1)
 			s.Sink.Kind = r.PickS("err", "err", "errfull")
-			s.Sink.As = r.PickS("", "", "", "eof", "ueof", "temporary")
+			s.Sink.As = r.PickS("", "", "", "eof", "ueof", "temporary", "shortwrite")
 			if r.Chance(1, 5) {
 				s.Sink.Kind = "short"
 				s.Sink.ShortN = r.Pick(0, 1, 100, 187)
@@ -711,6 +711,10 @@ func (c18) Exec(script interface{}, c *core.Ctx) {
 				}
 				src = br
 				c.Probe("reader_is_writerto")
+			}
+			if wrap == "" && s.Salt%5 == 3 {
+				src = parties.RefusingSeeker{Reader: sr}
+				c.Probe("reader_has_a_seek_method_that_refuses")
 			}
 			if !c.Call("packetWriter.ReadFrom", func() { n, err = rf.ReadFrom(src) }) {
 				return
